@@ -2,5 +2,5 @@
 from checks import seqcheck
 
 def main(tier, seed, replay):
-    return seqcheck.main("C06", "Properties/C06.v", tier, seed, replay, scenarios=['two','startup','tamper','two','crash','tamper','two@real','startup@real'],
+    return seqcheck.main("C06", "Properties/C06.v", tier, seed, replay, scenarios=['two','startup','tamper','two','crash','tamper','two@real','startup@real','loadrace'],
                          own_prefixes=tuple("C06,C01".split(",")), known_prefixes=("C06-stale-upload",) if "C06" == "C06" else ())
